@@ -17,6 +17,14 @@ def prop(pid, **kw):
     PROPS[pid] = kw
 
 
+def _b(modname, fn):
+    def run(tier, seed):
+        import importlib
+        return getattr(importlib.import_module("native." + modname), fn)(tier, seed)
+    run.__name__ = f"{modname}.{fn}"
+    return run
+
+
 _TB = ["pyvc VC generator and its CPython builtin models", "z3 5.1 / cvc5 1.0.3 / z3 4.8.12"]
 
 prop("C12", level="proof",
@@ -27,7 +35,7 @@ prop("C12", level="proof",
                 "relation, the string-level meaning of name_anc/glob2regex (proved separately at string level), pyvc itself. "
                 "Partial correctness (termination of the worklist loops is not proved).",
      explanation="Rule algebra laws as lemmas over the contracts of the verdict pipeline.",
-     roots=["Rule.assert_applies"],
+     roots=["Rule.assert_applies"], bounded=[_b("rules", "bounded_algebra")],
      trusted_base=_TB)
 
 _RULE_NOTE = ("Assumed: AbstractGraph accessor contracts (networkx DiGraph), dataclass field access, re.match as an uninterpreted "
@@ -38,11 +46,11 @@ prop("C01", level="proof",
                 "documented semantics (lemma C01_verdict_is_documented_semantics) for all graphs and all finite subject/object sets that "
                 "are pairwise unrelated, both filter kinds, all 12 shapes and the two 'anything' aliases.",
      level_note=_RULE_NOTE, explanation="Verdict = documented semantics, as a lemma over the contracts of the verdict pipeline.",
-     roots=["Rule.assert_applies", "C01_verdict_is_documented_semantics"], trusted_base=_TB)
+     roots=["Rule.assert_applies", "C01_verdict_is_documented_semantics"], bounded=[_b("rules", "bounded_verdicts")], trusted_base=_TB)
 prop("C11", level="proof",
      level_text="Unbounded proof: ModuleNameConverter.convert is verified (regex -> one name filter per matching module, ImpossibleMatch iff a "
                 "regex matches nothing); expansion, batch-subjects and batch-objects laws are lemmas over the verdict specification "
                 "Rule.assert_applies is proved against; have_name_containing configures exactly the translated regex filter.",
      level_note=_RULE_NOTE + " The glob->regex translation itself is verified at string level under C08.",
      explanation="Regex/batch specifications equal their expansions: lemmas over proved contracts.",
-     roots=["Rule.assert_applies", "ModuleNameConverter.convert"], trusted_base=_TB)
+     roots=["Rule.assert_applies", "ModuleNameConverter.convert"], bounded=[_b("rules", "bounded_expansion")], trusted_base=_TB)
